@@ -362,6 +362,8 @@ def run(F, rep, tier):
     run_r7(F, rep, crate)
     run_r8(F, rep, crate, tier)
     run_r9(F, rep, crate)
+    from rules import c07_sizes
+    c07_sizes.run(F, rep, F.syn(crate))
 
 
 def _int_eval(e):
